@@ -69,14 +69,18 @@ func c03ImageWith(e *ssmEnv, point string, prep func(img string) bool) {
 		return
 	}
 	defer s2.Close(true)
-	if _, err := s2.WaitForLeader(15 * time.Second); err != nil {
-		e.t.Fatalf("image leader: %v", err)
+	if _, err := s2.WaitForLeader(60 * time.Second); err != nil {
+		ssmAbandonNow(fmt.Sprintf("crash image never elected a leader: %v", err))
 	}
-	for i := 0; i < 300; i++ {
+	err = fmt.Errorf("no barrier attempted")
+	for deadline := time.Now().Add(60 * time.Second); time.Now().Before(deadline); {
 		if err = s2.Barrier(); err == nil {
 			break
 		}
 		time.Sleep(50 * time.Millisecond)
+	}
+	if err != nil { // the log has not been re-applied yet: nothing to judge
+		ssmAbandonNow(fmt.Sprintf("crash image: barrier: %v", err))
 	}
 	e.emit("open", "ok")
 	got := ssmQueryDump(s2)
@@ -219,7 +223,9 @@ func c03ManualSnapshot(e *ssmEnv) {
 }
 
 func c03History(t *testing.T, rep *vfReport, r *vfRng, nOps int) (ops, impl []string) {
-	e := ssmNewEnv(t, rep, r, "C03", false)
+	var e *ssmEnv
+	defer ssmGuard(rep, &e, &ops, &impl)
+	e = ssmNewEnv(t, rep, r, "C03", false)
 	defer e.cleanup()
 	images := 0
 	// key 200 is a counter: every write before a snapshot increments it, so an entry
@@ -280,7 +286,9 @@ func c03History(t *testing.T, rep *vfReport, r *vfRng, nOps int) (ops, impl []st
 // restart forced to rebuild. Whatever the snapshot store holds of the WAL segments (C06's
 // subject), the rebuilt table must be the acknowledged one.
 func c03BlockedCheckpoints(t *testing.T, rep *vfReport, r *vfRng) (ops, impl []string) {
-	e := ssmNewEnv(t, rep, r, "C03", false)
+	var e *ssmEnv
+	defer ssmGuard(rep, &e, &ops, &impl)
+	e = ssmNewEnv(t, rep, r, "C03", false)
 	defer e.cleanup()
 	rows := ssmRef{}
 	n := 600 + r.Intn(200)
@@ -386,6 +394,7 @@ func TestVerifC03(t *testing.T) {
 	dops, dimpl := c03BlockedCheckpoints(t, rep, r)
 	allOps = append(allOps, dops)
 	allImpl = append(allImpl, dimpl)
+	ssmFloor(rep)
 	rep.vfCompareSegments("storesm", allOps, allImpl)
 }
 
@@ -437,17 +446,22 @@ func TestVerifC03Child(t *testing.T) {
 			t.Fatal(err)
 		}
 	}
-	if _, err := s.WaitForLeader(15 * time.Second); err != nil {
-		t.Fatal(err)
+	if _, err := s.WaitForLeader(120 * time.Second); err != nil {
+		os.Exit(0) // loaded machine: the parent sees "never ready" and abandons the round
 	}
-	for i := 0; i < 300; i++ {
+	for deadline := time.Now().Add(60 * time.Second); time.Now().Before(deadline); {
 		if err := s.Barrier(); err == nil {
 			break
 		}
 		time.Sleep(50 * time.Millisecond)
 	}
 	if from == 0 {
-		mustExecute(t, s, []string{ssmCreate})
+		if err := ssmRetry(s, func() error {
+			_, _, err := s.Execute(context.Background(), executeRequestFromStrings([]string{ssmCreate}, false, false))
+			return err
+		}); err != nil {
+			os.Exit(0)
+		}
 	}
 	j, err := os.OpenFile(filepath.Join(dir, "verif-ack-journal"), os.O_CREATE|os.O_WRONLY|os.O_APPEND, 0o644)
 	if err != nil {
@@ -461,7 +475,13 @@ func TestVerifC03Child(t *testing.T) {
 		for _, st := range ss {
 			qs = append(qs, st.sql())
 		}
-		if _, _, err := s.Execute(context.Background(), executeRequestFromStrings(qs, false, tx)); err != nil {
+		if err := ssmRetry(s, func() error {
+			_, _, err := s.Execute(context.Background(), executeRequestFromStrings(qs, false, tx))
+			return err
+		}); err != nil {
+			if ssmLoadRelated(err) {
+				os.Exit(0) // outcome unknown, not acknowledged: for the parent this is where the process died
+			}
 			t.Fatalf("child execute: %v", err)
 		}
 		fmt.Fprintf(j, "ack %d\n", i)
@@ -522,16 +542,26 @@ func TestVerifC03Kill(t *testing.T) {
 				t.Fatal(err)
 			}
 			os.Remove(filepath.Join(dir, "verif-ack-journal"))
-			deadline := time.Now().Add(60 * time.Second)
+			deadline := time.Now().Add(180 * time.Second)
+			neverReady := false
 			for {
 				if ready, _, _ := c03ReadJournal(dir); ready {
 					break
 				}
 				if time.Now().After(deadline) {
-					cmd.Process.Kill()
-					t.Fatalf("child never became ready")
+					neverReady = true
+					break
 				}
 				time.Sleep(20 * time.Millisecond)
+			}
+			ssmCasesStarted++
+			if neverReady {
+				cmd.Process.Kill()
+				cmd.Wait()
+				ssmCasesAbandoned++
+				rep.Count("case-abandoned:machine-load")
+				rep.Note("kill -9 round abandoned (machine load, not judged): the child did not become ready within 180 s")
+				break
 			}
 			delay := time.Duration(100+r.Intn(2400)) * time.Millisecond
 			time.Sleep(delay)
@@ -556,14 +586,23 @@ func TestVerifC03Kill(t *testing.T) {
 				ln.Close()
 				break
 			}
-			if _, err := s.WaitForLeader(15 * time.Second); err != nil {
-				t.Fatal(err)
-			}
-			for i := 0; i < 300; i++ {
-				if err := s.Barrier(); err == nil {
-					break
+			_, lerr := s.WaitForLeader(60 * time.Second)
+			if lerr == nil {
+				lerr = fmt.Errorf("no barrier attempted")
+				for deadline := time.Now().Add(60 * time.Second); time.Now().Before(deadline); {
+					if lerr = s.Barrier(); lerr == nil {
+						break
+					}
+					time.Sleep(50 * time.Millisecond)
 				}
-				time.Sleep(50 * time.Millisecond)
+			}
+			if lerr != nil { // the log has not been re-applied: nothing to judge
+				ssmCasesAbandoned++
+				rep.Count("case-abandoned:machine-load")
+				rep.Note("kill -9 round abandoned (machine load, not judged): reopened store not ready within 60 s: %v", lerr)
+				s.Close(true)
+				ln.Close()
+				break
 			}
 			got := ssmQueryDump(s)
 			path := "rebuild"
@@ -621,6 +660,7 @@ func TestVerifC03Kill(t *testing.T) {
 		}
 		os.RemoveAll(dir)
 	}
+	ssmFloor(rep)
 	rep.vfCompareSegments("storesm", allOps, allImpl)
 	_ = proto.ConsistencyLevel_NONE
 }
